@@ -345,6 +345,52 @@ func c19(c *core.Ctx) {
 				}
 			}
 			c.Check(okBool, key+":bool-options", pa.Pos(), fmt.Sprintf("each boolean option stores into its own field %v", fieldOfOpt), fmt.Sprintf("boolean options do not each store into their own field: %v", fieldOfOpt))
+			// M<file>=<path>: stored under exactly the option name minus its one-letter prefix
+			nM := 0
+			core.Instrs(pa, func(in ssa.Instruction) {
+				mu, ok := in.(*ssa.MapUpdate)
+				if !ok || core.TypeStr(mu.Map.Type()) != "map[string]string" {
+					return
+				}
+				nM++
+				okKey := false
+				if sl, isSl := mu.Key.(*ssa.Slice); isSl && sl.High == nil {
+					if k, isC := core.ConstInt(sl.Low); isC && k == 1 {
+						okKey = core.OriginIs(sl.X, func(o ssa.Value) bool {
+							u, ok := o.(*ssa.UnOp)
+							if !ok {
+								return false
+							}
+							ia, ok := u.X.(*ssa.IndexAddr)
+							if !ok {
+								return false
+							}
+							i0, isC := core.ConstInt(ia.Index)
+							return isC && i0 == 0
+						})
+					}
+				}
+				okVal := core.OriginIs(mu.Value, func(o ssa.Value) bool {
+					u, ok := o.(*ssa.UnOp)
+					if !ok {
+						return false
+					}
+					ia, ok := u.X.(*ssa.IndexAddr)
+					if !ok {
+						return false
+					}
+					i1, isC := core.ConstInt(ia.Index)
+					return isC && i1 == 1
+				})
+				gM := core.GuardedBy(mu, func(f core.Fact) bool {
+					k, isC := core.ConstInt(f.Y)
+					return f.Op == token.EQL && isC && k == 'M'
+				})
+				c.Check(okKey && okVal && gM, key+":M-option", mu.Pos(), "M<file>=<path> is stored as importMap[name[1:]] = value under name[0] == 'M'", "the M option does not store importMap[<option name without its first letter>] = <value> (e.g. more than the one-letter prefix is stripped): a mapping for some file names is silently ignored")
+			})
+			if nM == 0 {
+				c.Fail(key+":M-option", pa.Pos(), "no import-map store found")
+			}
 			core.ComputeParamLenHints(p.LibFuncs(genPkg))
 			for _, fn := range p.LibFuncs(genPkg) {
 				if fn != pa && !(len(fn.Params) == 1 && core.TypeStr(fn.Params[0].Type()) == "[]string") {
